@@ -11,6 +11,21 @@ for _name in ("git", "diff3", "diff"):
         REAL[_name] = os.path.realpath(_p) if _name != "git" else _p
 
 
+_REAL_POPEN = subprocess.Popen   # captured at import: harness-side spawns never pass through a simulated seam
+
+
+class _Done:
+    def __init__(self, rc, out, err):
+        self.returncode, self.stdout, self.stderr = rc, out, err
+
+
+def real_run(argv, cwd=None, env=None, input=None):
+    p = _REAL_POPEN(argv, cwd=cwd, env=env, stdin=subprocess.PIPE if input is not None else subprocess.DEVNULL,
+                    stdout=subprocess.PIPE, stderr=subprocess.PIPE)
+    out, err = p.communicate(input)
+    return _Done(p.returncode, out, err)
+
+
 class World:
     def __init__(self, scratch, helpers=("git", "diff3", "diff"), clock=1000000000):
         self.root = os.path.realpath(scratch)
@@ -81,8 +96,7 @@ class World:
         env = dict(self.env)
         if env_extra:
             env.update(env_extra)
-        p = subprocess.run([REAL["git"]] + list(argv), cwd=cwd or self.work, env=env,
-                           stdout=subprocess.PIPE, stderr=subprocess.PIPE, input=input)
+        p = real_run([REAL["git"]] + list(argv), cwd=cwd or self.work, env=env, input=input)
         if check and p.returncode != 0:
             raise RuntimeError("git %s failed (%d): %s" % (" ".join(argv), p.returncode, p.stderr.decode("utf8", "replace")))
         return p
